@@ -42,6 +42,9 @@ func StripDomain(data []byte, domain string) (res []byte) {
 			// Add escaped char as-is
 			res = append(res, c)
 			data = data[1:]
+		} else if len(data) < 2 {
+			// dangling escape character at the end of the name
+			data = data[1:]
 		} else if Digits.MatchString(string(data[1:])) {
 			// Parse ascii escapes
 			digits := string(data[1:4])
